@@ -143,8 +143,8 @@ def exemption_checks(cx, cn, used):
     # svcb-quote-guard (only if the construct is still there)
     f = prog.fns.get(P + 'rr::rdata::svcb::SVCB::from_tokens')
     if f and used[(P + 'rr::rdata::svcb::SVCB::from_tokens', 'index', 'index')]:
-        idx = [s for s in cx.calls(f, r'Index<I>>::index$|Index::index$|IndexMut') if 'var(value)' in s.term]
-        cx.guard('C20.Z1', idx, {'len>=2': r'^(le\(2,str::len\(var\(value\)\)\)|lt\(1,str::len\(var\(value\)\)\))$'}, expect=1, fn=f)
+        idx = [s for s in cx.calls(f, r'Index<I>>::index$|Index::index$|IndexMut') if re.search(r'var\(\w+\)', s.term)]
+        cx.guard('C20.Z1', idx, {'len>=2': r'^(le\(2,str::len\(var\(\w+\)\)\)|lt\(1,str::len\(var\(\w+\)\)\))$'}, expect=1, fn=f)
     # octal / decimal digits
     f = prog.fns.get(P + 'rr::domain::name::Name::from_encoded_str')
     if f:
@@ -165,9 +165,9 @@ def exemption_checks(cx, cn, used):
     f = prog.fns.get(Z + 'Context::insert')
     if f:
         ins = cx.calls(f, r'RecordSet::insert$')
-        KEY = r'BTreeMap::entry\(arg1\.records,RrKey::new\(LowerName::new\(var\(record\)\.name\),Record::record_type\(var\(record\)\)\)\)'
+        KEY = r'BTreeMap::entry\(arg1\.records,RrKey::new\(LowerName::new\(var\(\w+\)\.name\),Record::record_type\(var\(\w+\)\)\)\)'
         for s in ins:
-            cx.check('C20.Z1', bool(re.match(r'^RecordSet::insert\(OccupiedEntry::get_mut\(' + KEY + r'@Occupied\.0\),var\(record\),0\)$', s.term)), f.path, s.key(),
+            cx.check('C20.Z1', bool(re.match(r'^RecordSet::insert\(OccupiedEntry::get_mut\(' + KEY + r'@Occupied\.0\),var\(\w+\),0\)$', s.term)), f.path, s.key(),
                      'rrset-looked-up-under-the-record-own-key', s.term[:200], s.loc)
         cx.check('C20.Z1', len(ins) == 1, f.path, 'calls', 'single-rrset-insert', str(len(ins)))
         adders = [s for s in cx.calls(f, r'RecordSet::(add_rdata|new_record|add_rrsig|insert_rrsig)$')]
@@ -369,11 +369,11 @@ def inheritance(cx):
     T = TOK
     own = cx.assigns(f, r'^Option::Some\(try\(Name::parse\(', place=r'current_name$')
     for s in own:
-        cx.check('C20.S1', bool(re.match(rf'^Option::Some\(try\(Name::parse\({T}@CharData\.0,var\(cx\)\.origin\)\)@Continue\.0\)$', s.term)), f.path, s.key(),
+        cx.check('C20.S1', bool(re.match(rf'^Option::Some\(try\(Name::parse\({T}@CharData\.0,var\(\w+\)\.origin\)\)@Continue\.0\)$', s.term)), f.path, s.key(),
                  'owner=leading-name-resolved-against-current-origin', s.term[:200], s.loc)
     cx.check('C20.S1', len(own) >= 1, f.path, 'stores', 'owner-store-present', str(len(own)))
     at = cx.calls(f, r'Clone>::clone_from$')
-    cx.guard('C20.S1', [s for s in at if s.term.endswith('clone_from(var(cx).current_name,var(cx).origin)')], {'on-@': rf'^is\({T},At\)$'}, expect=1, fn=f)
+    cx.guard('C20.S1', [s for s in at if re.search(r'clone_from\((var\(\w+\))\.current_name,\1\.origin\)$', s.term)], {'on-@': rf'^is\({T},At\)$'}, expect=1, fn=f)
     org = cx.assigns(f, r'^Option::Some\(try\(Name::parse\(', place=r'\.origin$')
     cx.guard('C20.S1', org, {'after-$ORIGIN': rf'^is\({T},Origin\)$', 'name-token': rf'^is\({T},CharData\)$'}, fn=f)
     cx.check('C20.S1', len(org) >= 1, f.path, 'stores', 'origin-store-present', str(len(org)))
